@@ -43,8 +43,9 @@ package persistence
 
 // ---- assumed contracts of bbolt and encoding/json ---------------------------------------------------------
 //@ extern func go.etcd.io/bbolt.Open(path string, mode os.FileMode, options *bolt.Options) (db *bolt.DB, err error)
+//@   requires[locktimeout] options != nil && options.Timeout >= 60000000000
 //@   ensures err == nil ==> db != nil
-//@   trusted "bbolt.Open returns a handle or an error (timeout 1 min)"
+//@   trusted "bbolt.Open returns a handle or an error; with a lock timeout of at least a minute (checked at the call site) a lock held briefly by another fan2go process or controller is waited for instead of being reported as a failed load"
 //@ extern func (db *go.etcd.io/bbolt.DB).Close() (err error)
 //@   effectfree
 //@   trusted "closing the handle does not change stored data"
